@@ -98,6 +98,18 @@ F.append(dict(id='F41', property='C16', status='open', clause_kind='excel_overla
               text='Excel export fails (OverlappingRange) for a valid solution in which a cumulative worker processes two tasks at overlapping times: '
                    'both bars are merged ranges of the same row [F41]'))
 
+F.append(dict(id='F47', property='C07', status='open', clause_kind='builtin-optimizer-unreliable',
+              witness=dict(program_pretty=['horizon 5', "T1 = FixedDurationTask(duration=2, optional=True)", "T2 = FixedDurationTask(duration=1)",
+                                           'maximise T1.end + 2 * T2.end with optimizer="optimize"', 'repeat 40 times in one process'],
+                           observed='value 15 in 34 runs, 9 (T1 left unscheduled) in 6; the same with raw z3.Optimize 4.12.6 and no library code, in every priority mode'),
+              text='optimizer="optimize": z3.Optimize (4.12) returns a non-optimal model in about one run in ten on some tiny problems (reproduced with raw z3, '
+                   'no library code involved); the check solves three times and reports a disagreement with the incremental optimiser only when it shows every time [F47]'))
+
+F.append(dict(id='F47b', property='C15', status='open', clause_kind='builtin-optimizer-unreliable',
+              witness=dict(case='see F47 (C07)'),
+              text='optimizer="optimize": z3.Optimize (4.12) returns a non-optimal model in about one run in ten on some tiny problems (raw z3); a configuration '
+                   'whose three attempts give different optima is left out of the comparison of optima [F47]'))
+
 F.append(dict(id='F46', property='C16', status='open', clause_kind='smt2_symbol_leading_digit',
               witness=dict(program_pretty=["FixedDurationTask(name='2ndTask', duration=2)", "solver.export_to_smt2(f)", "z3.parse_smt2_file(f)"],
                            observed='(error "line 3 column 13: invalid function declaration, symbol expected")'),
